@@ -293,8 +293,16 @@ def gen_corruption(seed):
         else:
             off, reg = _pick_offset(rng, lay)
             base = off
-        kind = rng.choices(["sub", "ins", "del"], [70, 15, 15])[0]
+        kind = rng.choices(["sub", "ins", "del", "swap"], [66, 14, 14, 6])[0]
         old = data[off] if off < len(data) else 0
+        if kind == "swap":
+            # two neighbouring bytes exchanged (counts as two substitutions)
+            if off + 1 < len(data) and data[off] != data[off + 1] and len(plan) + 2 <= 4:
+                plan.append(["sub", off, data[off + 1]])
+                plan.append(["sub", off + 1, data[off]])
+                regions += [reg, reg]
+                continue
+            kind = "sub"
         if kind == "sub":
             v = _pick_byte(rng, old, data, off)
             if v == old:
